@@ -285,8 +285,16 @@ fn trace_case(cfg: &Cfg, cursors: &[Cursor], input: &str, out: &mut String) {
     let sink: Shared = Arc::new(Mutex::new(String::new()));
     let replica = make_replica(cfg, sink.clone());
     let mut cs: Vec<Cursor> = cursors.to_vec();
+    pasfmt_core::defaults::parser::verif_events::start();
     let replica_out = replica.format(input, FileOptions::new().with_cursors(&mut cs));
+    let wlog = pasfmt_core::defaults::parser::verif_events::take();
     out.push_str(&sink.lock().unwrap());
+    // the wrapper's decisions, in the order reconstruct_solution applied them, with the phase markers
+    for l in wlog.lines() {
+        if l.starts_with("WD ") || l.starts_with("WPHASE ") {
+            writeln!(out, "{}", l).unwrap();
+        }
+    }
     writeln!(out, "OUT {}", hex(replica_out.as_bytes())).unwrap();
     writeln!(out, "OUTCURSORS {}", fmt_cursors(&cs)).unwrap();
     // the output re-scanned by the real lexer (C02)
